@@ -60,6 +60,10 @@ var loopShapes = []loopShape{
 	// the time is spent while the result is exported (a getter of the returned object): D51, hung Exec
 	{"getter-loop", `return {get a() { for(;;){} }};`, true, 64},
 	{"getter-rec", `return {x: {get a() { function f(n){ return n<=0 ? 0 : 1 + f(n-1); } for(;;){ f(100); } }}};`, true, 64},
+	// endless without a loop statement or the word function: recursion through shorthand methods, arrows and accessors
+	{"method-rec", `var o = {spin(n) { return n < 1 ? 1 : this.spin(n-1) + this.spin(n-1); }}; return {r: o.spin(300)};`, true, 64},
+	{"arrow-rec", `var f = (n) => n < 1 ? 1 : f(n-1) + f(n-1); return {r: f(300)};`, true, 64},
+	{"accessor-rec", `var o = {n: 300, get x() { if (this.n < 1) { return 1; } this.n--; var a = this.x + this.x; this.n++; return a; }}; return {r: o.x};`, true, 64},
 	{"unbounded-rec", `function f(n){ return f(n+1)+1; } return {x: f(0)};`, true, 4},
 	{"finite-loop", `var s=0; for(var i=0;i<2000;i++){ s+=i; } return {s: s};`, false, 64},
 	{"finite-rec", `function r(n){ return n<=0 ? 0 : 1 + r(n-1); } return {r: r(300)};`, false, 64},
